@@ -4,6 +4,7 @@
     stream c15graph : (kind w) (graph ((xname (xcomp…))…)) (skip (x…)) (mixed (x…)) (flags none|bits)
                       (impl (sorted (x…)) (sorted_pruned (x…))) (millis n) (outcome …) [(font x…) (rf …)]
     stream c15mut   : (source x…) (muts ((kind xfile xdetail)…)) (millis n) (outcome …) [(font x…) (rf …)]
+    stream c15corpus: (source x…) (millis n) (outcome …) [(font x…) (rf …)]      minimised reproducers (corpus/c15)
     (outcome (kind exit|signal|timeout) (code n) (font_written b) (stderr_empty b) (caught_panic b)
              (stack_overflow b) (alloc_failed b) (msg x…))
 
@@ -16,6 +17,10 @@
   oracle : the property itself on the child's outcome: exit 0 with a font that passes C05's whole-font checker
            (`Driver.C05.checkFontFields`), or exit 1 with a diagnostic and no font file; never a signal, a timeout,
            an uncaught panic (101) or any other exit code.
+  failure classes: component-cycle-crash / component-cycle-hang / cycle-accepted-bogus-font (defect F1: no cycle check),
+           panic-exit:<source file of the panic>, crash-signal, memory-exhausted, timeout, ok-but-malformed-font,
+           ok-but-no-font, error-but-font-written, error-without-diagnostic, unexpected-exit-code, valid-source-rejected.
+           A panic caught by the workload and reported as `Error::Panic` (exit 1, no font) passes, tagged `caught-panic`.
 -/
 import Driver.Common
 import Driver.C05
@@ -63,6 +68,17 @@ def errWord (msg : String) : String :=
   let cut := (body.takeWhile fun c => c != '\'' && c != ':' && c != '|' && c != '/').toString
   sanitize ((cut.trimAscii.toString.take 32).toString)
 
+/-- `…panicked at /repo/glyphs-reader/src/font.rs:2049:41:` ↦ `glyphs-reader/src/font.rs` (line numbers are not stable) -/
+def panicSite (msg : String) : String :=
+  match msg.splitOn "panicked at " with
+  | _ :: rest :: _ =>
+    let path := (rest.takeWhile fun c => c != ':' && c != ' ' && c != ',').toString
+    let rel := match path.splitOn "/repo/" with
+      | _ :: r :: _ => r
+      | _ => "/".intercalate ((path.splitOn "/").reverse.take 3).reverse
+    sanitize rel
+  | _ => "unknown"
+
 structure Judged where
   /-- `none` = harness fault (the child could not be started) -/
   oracle : Option Bool
@@ -94,8 +110,11 @@ def judge (s : Sexp) (o : Outcome) : Judged :=
     else { oracle := some true, word := "error",
            tags := (if o.caughtPanic then ["caught-panic"] else []) ++ ["err:" ++ errWord o.msg],
            detail := if o.caughtPanic then o.msg else "" }
-  else if o.code == 101 then { oracle := some false, cls := "panic-exit", word := "exit101", detail := o.msg }
+  else if o.code == 101 then { oracle := some false, cls := "panic-exit:" ++ panicSite o.msg, word := "exit101", detail := o.msg }
   else { oracle := some false, cls := "unexpected-exit-code", word := s!"exit{o.code}", detail := o.msg }
+
+/-- one text line: control characters out -/
+def cleanDetail (d : String) : String := d.map fun c => if c.toNat < 32 || c.toNat == 127 then ' ' else c
 
 def strLt (a b : String) : Bool := decide (a < b)
 
@@ -141,18 +160,20 @@ def handleGraph : Handler := fun s =>
         if cyclic then
           if o.kind == "signal" then (false, "component-cycle-crash")
           else if o.kind == "timeout" then (false, "component-cycle-hang")
-          else if j.word == "ok" then (false, if passed then "cycle-accepted-bogus-font" else j.cls)
+          else if j.word == "ok" then (false, "cycle-accepted-bogus-font")
           else (passed, j.cls)
         else if passed && j.word == "error" then (false, "valid-source-rejected")
         else (passed, j.cls)
       let predicted := if o.kind == "exit" && (o.code == 0 || o.code == 1) then cyclic == (o.code == 1) else true
       let corrCls := if !sortAgree then "depth-sort-differs-from-model" else if !predicted then "gate-prediction-differs" else ""
-      let detail := if !sortAgree then s!"model={depthSortNames strLt g}/{depthSortNames strLt pg} impl={iSorted}/{iSortedPruned}" else j.detail
+      let detail := if !sortAgree then s!"model={depthSortNames strLt g}/{depthSortNames strLt pg} impl={iSorted}/{iSortedPruned}"
+        else if cyclic && j.word == "ok" then (if passed then "the font itself passes the whole-font checker" else j.cls ++ " " ++ j.detail)
+        else j.detail
       some { corr := some (sortAgree && predicted), oracle := some oracle, nontrivial := nt,
              cls := if oracle then corrCls else cls, tags, detail := sanitizeDetail detail }
   r.getD (badInput "c15graph: cannot parse case")
 where
-  sanitizeDetail (d : String) : String := d.map fun c => if c == '\n' || c == '\r' then ' ' else c
+  sanitizeDetail (d : String) : String := cleanDetail d
 
 def parseMuts (s : Sexp) : Option (List (String × String × String)) :=
   s.mapM? fun e =>
@@ -180,7 +201,29 @@ def handleMut : Handler := fun s =>
       let what := "; ".intercalate (muts.map fun (k, f, d) => s!"{k} {f} [{d}]")
       let detail := if oracle && !o.caughtPanic then "" else s!"{source}: {what} => {j.word} {j.detail}"
       some { corr := if muts.isEmpty then some (j.word == "ok") else none, oracle := some oracle, nontrivial := !muts.isEmpty,
-             cls, tags, detail := detail.map fun c => if c == '\n' || c == '\r' then ' ' else c }
+             cls, tags, detail := cleanDetail detail }
   r.getD (badInput "c15mut: cannot parse case")
+
+/-- c15corpus: minimised reproducers of past findings (/verif/corpus/c15) and sources of the repo's own testdata that
+    are known to end badly. Oracle: the property on the child's outcome; a reproducer named `component-cycle…` is F1. -/
+def handleCorpus : Handler := fun s =>
+  let r : Option Verdict := do
+    let source ← (← s.field1? "source").asString?
+    let o ← parseOutcome s
+    let j := judge s o
+    let cycle := source.startsWith "component-cycle"
+    match j.oracle with
+    | none => some (badInput ("c15corpus: " ++ j.detail))
+    | some passed =>
+      let cls :=
+        if cycle && o.kind == "signal" then "component-cycle-crash"
+        else if cycle && o.kind == "timeout" then "component-cycle-hang"
+        else if cycle && j.word == "ok" then "cycle-accepted-bogus-font"
+        else j.cls
+      let oracle := passed && !(cycle && j.word == "ok")
+      some { corr := none, oracle := some oracle, nontrivial := true, cls,
+             tags := ["src:" ++ sanitize source, "out:" ++ j.word] ++ j.tags,
+             detail := cleanDetail (if oracle && !o.caughtPanic then "" else s!"{source} => {j.word} {j.detail}") }
+  r.getD (badInput "c15corpus: cannot parse case")
 
 end Fontc.Driver.C15
